@@ -131,7 +131,7 @@ func setup(r *explore.Run, sc scenario) *world {
 	xr := xrh.XR("xr1", "comp")
 	xr.SetWriteConnectionSecretToReference(&xpv1.SecretReference{Namespace: "ns", Name: "xr1-conn"})
 	s.Seed(xr)
-	w.inj = &xrh.FaultInjector{Run: r, Reads: sc.reads}
+	w.inj = &xrh.FaultInjector{Run: r, Reads: sc.reads, NotFoundReads: true}
 	s.Inj = w.inj
 	return w
 }
